@@ -355,10 +355,22 @@ def find_check_cache(context):
 
     # Check if any of the explicit inputs are newer than any of the explicit
     # outputs. If so, we definitely want to regenerate the build files.
+    oldest_output = min(
+        _path.getmtime_ns(i, context.env.base_dirs, strict=False)
+        for i in regen_files.outputs
+    )
     if ( max(_path.getmtime_ns(i, context.env.base_dirs, strict=False)
-             for i in regen_files.inputs) >
-         min(_path.getmtime_ns(i, context.env.base_dirs, strict=False)
-             for i in regen_files.outputs) ):
+             for i in regen_files.inputs) > oldest_output ):
+        return
+
+    # The cache is saved just before the main build file is written. If it's
+    # newer than that file, a previous regeneration was interrupted in between,
+    # and the cached results don't describe the (older) build file; regenerate.
+    cachefile = os.path.join(context.env.builddir.string(),
+                             FindCacheFile.cachefile)
+    if ( os.stat(cachefile).st_mtime_ns >
+         _path.getmtime_ns(regen_files.outputs[0], context.env.base_dirs,
+                           strict=False) ):
         return
 
     # Otherwise, check to see if any of the `find_files` calls have different
